@@ -28,7 +28,7 @@ class C07:
     assumptions = ['gcc/clang -O0 fold constant expressions per C11', 'conversion of out-of-range values to signed types is modulo 2^N (both references)']
 
     def budget(self, tier):
-        return 1300 if tier == 'quick' else 30000
+        return 1300 if tier == 'quick' else 15000
 
     def gen_case(self, ch, depth):
         g = igen.Gen(ch, allow_side=False, allow_ptr=False, allow_comma=False)
